@@ -11,6 +11,7 @@
 """
 import json
 import os
+import threading
 
 import vlib
 
@@ -32,15 +33,41 @@ def run(c):
                ["-complete", "3:2:3,4:2:2", "-rand", 1500]
         p = c.run_driver(drv, ["-out", trace] + args, timeout=3000)
         c.notes.append("driver: " + p.stdout.strip().splitlines()[-1])
-    r = c.validate("BeaconSelTrace", "BeaconSelTrace.cfg", trace, timeout=3000)
     lines = open(trace).read().splitlines()
-    if r.stuck_at is not None and not r.bad:
-        raise vlib.Infra("table validation stopped at line %s\n%s" % (r.stuck_at, r.out[-2000:]))
-    for (l, key) in r.bad:          # every line is an independent case: the replay is that line
-        rp = os.path.join(c.scratch, "replay-%d.ndjson" % l)
-        with open(rp, "w") as o:
-            o.write(lines[l - 1] + "\n")
-        c.report(key, "case line %d: %s" % (l, lines[l - 1][:200]), rp)
+    # every line is an independent case: large tables are validated by several TLC processes
+    nsh = 4 if len(lines) > 20000 else 1
+    parts = []
+    for i in range(nsh):
+        pth = "%s.part%d" % (trace, i) if nsh > 1 else trace
+        if nsh > 1:
+            with open(pth, "w") as o:
+                o.write("\n".join(lines[i::nsh]) + "\n")
+        parts.append((pth, lines[i::nsh]))
+    results = [None] * nsh
+    errs = []
+
+    def work(i):
+        try:
+            results[i] = c.validate("BeaconSelTrace", "BeaconSelTrace.cfg", parts[i][0], timeout=3000)
+        except Exception as e:
+            errs.append(e)
+    ths = [threading.Thread(target=work, args=(i,)) for i in range(nsh)]
+    for t in ths:
+        t.start()
+    for t in ths:
+        t.join()
+    if errs:
+        raise errs[0]
+    ndrift = 0
+    for (pth, plines), r in zip(parts, results):
+        if r.stuck_at is not None and not r.bad:
+            raise vlib.Infra("table validation stopped at line %s\n%s" % (r.stuck_at, r.out[-2000:]))
+        ndrift += r.out.count('"VERIF-DRIFT"')
+        for (l, key) in r.bad:          # the replay of a case is its line
+            rp = os.path.join(c.scratch, "replay-%s-%d.ndjson" % (os.path.basename(pth), l))
+            with open(rp, "w") as o:
+                o.write(plines[l - 1] + "\n")
+            c.report(key, "case: %s" % plines[l - 1][:200], rp)
     n = nontriv = 0
     shapes = set()
     for ln in lines:
@@ -58,7 +85,7 @@ def run(c):
                      "complete enumeration of lists of <= 3 (quick) / 4 (thorough) candidates with <= 2 links over "
                      "3 link values, and of <= 4 / 5 candidates over 2 link values, with all k <= n+1 (the first "
                      "block is also the model-checked bound); larger lists are seeded samples")
-    nd = r.out.count('"VERIF-DRIFT"')
+    nd = ndrift
     if nd:
         c.notes.append("VERIF-DRIFT lines (tie-break among equally diverse, equally long candidates): %d" % nd)
     c.sample_trace(trace, nevents=3, limit=1)
